@@ -339,9 +339,9 @@ func (x *c1runner) confirm(p c1prog, cls string, pref c1arr) (ok bool, why strin
 	if !found {
 		ok, why = false, "the failing arrangement could not be reproduced for minimisation"
 	} else if f.byRule {
-		ok, why = c1Strict(min, f.texts, f.cls, nil)
+		ok, why, f.cls = c1Strict2(min, f.texts, f.cls, nil)
 	} else {
-		ok, why = c1Strict(min, f.texts, f.cls, f.found)
+		ok, why, f.cls = c1Strict2(min, f.texts, f.cls, f.found)
 	}
 	x.mu.Lock()
 	if x.verdicts == nil {
@@ -791,6 +791,33 @@ var c1classShape = map[string]string{
 // differences of enclosing nodes are tolerated next to it) and the program shows no structural
 // shape other than the one cls is keyed by.
 func c1Strict(p c1prog, texts []string, cls string, found map[string]bool) (bool, string) {
+	ok, why, _ := c1Strict2(p, texts, cls, found)
+	return ok, why
+}
+
+const c1clsE = "closedness-of-embedded-reference-depends-on-arrangement"
+const c1clsF = "closedness-through-sibling-field-references-depends-on-order"
+const c1clsEF = "closedness-through-sibling-field-references-to-embedded-definition"
+
+// c1Strict2 also returns the class the pair is listed under (the combination of the sibling
+// reference shape with an embedded definition is a finding of its own).
+func c1Strict2(p c1prog, texts []string, cls string, found map[string]bool) (bool, string, string) {
+	if cls == c1clsE || cls == c1clsF {
+		sh := c1Shapes(p, texts)
+		if len(sh) == 2 && sh["E"] && sh["F"] {
+			for c := range found {
+				if c != c1clsE && c != c1clsF && !c1neutral[c] {
+					return false, "differences of two classes: " + cls + " and " + c, cls
+				}
+			}
+			return true, "", c1clsEF
+		}
+	}
+	ok, why := c1strict1(p, texts, cls, found)
+	return ok, why, cls
+}
+
+func c1strict1(p c1prog, texts []string, cls string, found map[string]bool) (bool, string) {
 	for c := range found {
 		if c != cls && !c1neutral[c] {
 			return false, "differences of two classes: " + cls + " and " + c
@@ -948,7 +975,9 @@ func c1hasMaybeEmptyComprehension(src string) bool {
 			for _, cl := range c.Clauses {
 				switch cl := cl.(type) {
 				case *ast.IfClause:
-					found = true
+					if id, ok := cl.Condition.(*ast.Ident); !ok || id.Name != "true" {
+						found = true
+					}
 				case *ast.ForClause:
 					switch s := cl.Source.(type) {
 					case *ast.StructLit:
